@@ -29,9 +29,15 @@ impl PeriodicKdTree {
         let random_rotation_matrix = Rotation3::new(Vector3::new(0.01, 0.02, 0.03));
         let new_lattice = reduced_cell.lattice.rotate(&random_rotation_matrix.into());
 
+        // A point within `symprec` of the unit cell leaves it by at most `symprec * |a*_i|` along the i-th
+        // fractional coordinate, where a*_i is the i-th reciprocal basis vector.
         // Twice the padding for safety
-        let padding = 2.0 * symprec
-            / (3.0 * (new_lattice.basis * new_lattice.basis.transpose()).trace()).sqrt();
+        let reciprocal_basis = new_lattice.basis.try_inverse().unwrap();
+        let padding = 2.0
+            * symprec
+            * (0..3)
+                .map(|i| reciprocal_basis.row(i).norm())
+                .fold(0.0, f64::max);
 
         let mut entries = vec![];
         let mut indices = vec![];
